@@ -485,6 +485,33 @@ theorem set_then_caller_mutations_get (cfg : Cfg α) (rw rr : Registry α) (st :
     ((h.run later, st.setRef cfg rw h k r) : Heap α × SStore α).2.get cfg rr k = .value (h r) :=
   set_get cfg rw rr st k (h r) hrt
 
+/-- **an empty secret is no secret**: `secret=""` / `secret=b""` (an unset environment variable read with a `""` fallback)
+build the same serializer as no secret at all — NullSigner, and the NonPickler stays unless a real pickler was asked for … -/
+theorem empty_secret_is_no_secret (d : Digest) (asked : Bool) :
+    signerOf (some (.str [])) d = none ∧ signerOf (some (.bytes [])) d = none ∧ signerOf none d = none ∧
+    nonPicklerStays (some (.str [])) d asked = nonPicklerStays none d asked ∧
+    nonPicklerStays (some (.bytes [])) d asked = nonPicklerStays none d asked :=
+  ⟨rfl, rfl, rfl, rfl, rfl⟩
+
+/-- … so every value round-trips under it exactly as on plain `mem://` (`decode_encode_null`) … -/
+theorem decode_encode_empty_secret (cfg : Cfg α) (secret : SecretArg) (hempty : toBytes secret = some []) (d : Digest)
+    (hs : cfg.signer = signerOf (some secret) d) (hpk : cfg.pickler = Pickler.null)
+    (rw rr : Registry α) (key : Bytes) (v : Val α)
+    (htagsW : TagsColonFree rw) (htagsR : TagsColonFree rr)
+    (hR : ∀ c, rw (tagOf cfg v) = some c → ∃ c', rr (tagOf cfg v) = some c' ∧ c'.dec (c.enc v) = some v)
+    (hbytes : rw (tagOf cfg v) = none → v.isBytes = false) :
+    ∃ w, encode cfg rw key v = some w ∧ decode cfg rr key w false = .value v := by
+  have hnone : cfg.signer = none := by rw [hs]; simp [signerOf, hempty]
+  exact decode_encode_null cfg rw rr key v hpk hnone htagsW htagsR hR hbytes
+
+/-- … whereas the combination the two tests must never produce — a signer on top of the NonPickler (signing decided by
+`secret is not None`, the pickler by `bool(secret)`) — cannot store any object that is neither an integer nor custom-encoded:
+`sign` is handed the object itself (TypeError: can't concat … to bytes) -/
+theorem signer_over_nonpickler_cannot_store_objects (cfg : Cfg α) (reg : Registry α) (s : Signer) (hs : cfg.signer = some s)
+    (hpk : cfg.pickler = Pickler.null) (key : Bytes) (x : α) (hfree : reg (tagOf cfg (.obj x)) = none) :
+    encode cfg reg key (.obj x) = none := by
+  simp [encode, customEncode, hfree, hpk, Pickler.null, sign, hs]
+
 /-! ### non-vacuity: a concrete configuration that satisfies every hypothesis, evaluated -/
 
 /-- toy pickler: `obj n ↦ [0x80, n]` -/
